@@ -7,6 +7,7 @@ package main
 import (
 	"bytes"
 	"fmt"
+	"os"
 	"reflect"
 	"runtime"
 	"strconv"
@@ -61,7 +62,14 @@ func NewSched() *Sched {
 	spine.VerifSetHook(s.hook)
 	return s
 }
-func (s *Sched) Close() { spine.VerifSetHook(nil) }
+// Close removes the scheduler's hook; if the state tracer of the stack is on (VERIF_SUITE_TRACE) its hook is put back
+func (s *Sched) Close() {
+	if os.Getenv("VERIF_SUITE_TRACE") != "" {
+		spine.VerifSetHook(spine.VerifTraceHook)
+		return
+	}
+	spine.VerifSetHook(nil)
+}
 
 // Add registers a model process: fn runs in its own goroutine when first scheduled; it parks at the given points
 func (s *Sched) Add(name string, gates []string, fn func()) {
@@ -75,6 +83,7 @@ func (s *Sched) Add(name string, gates []string, fn func()) {
 }
 
 func (s *Sched) hook(point string, args ...any) {
+	spine.VerifTraceHook(point, args...) // (no-op unless the state tracer is on)
 	gid := curGid()
 	s.mu.Lock()
 	p := s.byGid[gid]
